@@ -85,6 +85,16 @@ def _runner_main() -> None:
     from twisted.internet import error, interfaces, protocol, reactor
     from zope.interface import implementer
 
+    from twisted.python import log as _tlog
+
+    errors = []          # failures logged by twisted while a scenario runs (exceptions swallowed by the reactor)
+
+    def _observer(ev):
+        if ev.get("isError"):
+            f = ev.get("failure")
+            errors.append(f.type.__name__ if f is not None else "error")
+
+    _tlog.addObserver(_observer)
     limit = float(req.get("limit", 8.0))
     grace = float(req.get("grace", 0.03))
     cases = req["cases"]
@@ -112,6 +122,7 @@ def _runner_main() -> None:
             self.timers = []
             self.finish_cb = None
             self.curdata = 0
+            del errors[:]
 
         # ---- token log ----
         def flags(self, side):
@@ -400,6 +411,7 @@ def _runner_main() -> None:
                 obs += " ##" + ";".join(
                     "%s:made=%d,lost=%d,mism=%s" % (s, self.made[s], self.nlost[s],
                                                     "-" if self.mism[s] is None else self.mism[s]) for s in "AB")
+                obs += ";E:" + ("+".join(errors[:3]) or "-")
             else:
                 obs = verdict
                 for s in "AB":
@@ -586,6 +598,9 @@ def oracle(case, obs):
     direct = dict(x.split(":", 1) for x in obs.split(" ##")[1].split(";"))
     info = {s: dict(kv.split("=") for kv in direct[s].split(",")) for s in "AB"}
     rk = case["reactor"]
+    if direct.get("E", "-") != "-":
+        return Failure(case, f"{rk}: twisted logged an unhandled exception while the connection ran: {direct['E']}",
+                       "logged-error")
     for s in "AB":
         if info[s]["mism"] != "-":
             return Failure(case, f"{rk}: bytes delivered to {s} differ from the bytes its peer wrote, first at stream "
@@ -653,7 +668,7 @@ def oracle(case, obs):
 
 # ---- generator ----
 
-_LOST_NOISE = [["w", 5], ["lose"], ["abort"], ["pause"], ["resume"], ["ws", [1, 2]]]
+_LOST_NOISE = [["w", 5], ["lose"], ["abort"], ["pause"], ["resume"], ["ws", [1, 2]], ["losew"]]
 
 
 def _pieces(rng, total, sl, bs):
@@ -711,11 +726,16 @@ def _one(rng, kind, big):
             Y["rules"].append(["rlost", [["lose"]]])
     elif kind == "reply":
         Y["half"] = hy = rng.random() < 0.8
-        X["rules"].append(["conn", _chain(rng, W(total), [["losew"]])])
+        again = rng.random()
+        X["rules"].append(["conn", _chain(rng, W(total), [["losew"]] + ([["later", rng.choice([1, 5, 20]), [["losew"]]]]
+                                                                     if again < 0.3 else []))])
         if hx:
             X["rules"].append(["rlost", [["lose"]]])
+            if 0.3 <= again < 0.6:
+                X["rules"].append(["wlost", [["losew"]]])       # a second half-close once the first is complete
         if hy:
-            Y["rules"].append(["rlost", _chain(rng, W(min(total, rng.choice([0, 1, 50, 3000, 30000]))), [["lose"]])])
+            reply = _chain(rng, W(min(total, rng.choice([0, 1, 50, 3000, 30000]))), [["lose"]])
+            Y["rules"].append(["rlost", reply if rng.random() < 0.5 else [["later", rng.choice([5, 25]), reply]]])
     elif kind == "echo":
         total = max(1, min(total, 60000 if not big else total))
         X["rules"].append(["conn", _chain(rng, W(total), [])])
@@ -775,6 +795,19 @@ def _one(rng, kind, big):
         if hy:
             Y["rules"].append(["rlost", [["lose"]]])
         ex = {"X": ["D", "A"], "Y": ["D", "L"], "XY": "prefix", "YX": "exact", "unmade": "Y"}
+    elif kind == "dead-peer":
+        # the peer goes away early while X is not reading; later X acts on the dead connection
+        t0 = rng.choice([0, 5, 10])
+        yact = rng.choice(["abort", "lose"])
+        Y["rules"].append([["at", t0], [[yact]]])
+        xacts = rng.choice([[["abort"], ["w", 10]], [["w", 10], ["lose"]], [["lose"], ["w", 5], ["abort"]],
+                            [["w", max(total, 1)], ["abort"]], [["resume"]], [["losew"], ["w", 3]]])
+        X["rules"].append(["conn", [["pause"]]])
+        X["rules"].append([["at", t0 + rng.choice([15, 30])], xacts + [["later", 30, [["lose"]]]]])
+        if hx:
+            X["rules"].append(["rlost", [["lose"]]])
+        ex = {"X": ["D", "L", "A"], "Y": ["A" if yact == "abort" else "D"], "XY": "prefix", "YX": "exact",
+              "unmade": "X" if yact == "abort" else None}
     else:
         raise AssertionError(kind)
     for side in (X, Y):
@@ -791,7 +824,7 @@ def _one(rng, kind, big):
 
 
 KINDS = ["simple", "simple", "reply", "reply", "echo", "pause", "both", "write-after-lose", "abort", "abort",
-         "peer-abort", "early-close", "late-abort"]
+         "peer-abort", "early-close", "late-abort", "dead-peer"]
 
 
 def _gen_cases(rng, per_reactor, nbig):
@@ -832,6 +865,49 @@ def corpus():
         {"kind": "corpus-server-writes", "sndbuf": 2304, "rcvbuf": 2304, "sl": 257, "bs": 100,
          "A": {"half": True, "rules": [["rlost", [["lose"]]]]},
          "B": {"half": False, "rules": [["conn", [["w", 300], ["lose"], ["w", 900], ["ws", [1, 2, 3]]]]]},
+         "expect": E},
+    ]
+    base += [
+        # the writer has stopped reading (loseConnection with a long flush ahead) when the reader aborts: poll / epoll
+        # report the reset as a hang-up without POLLIN (the POLL_DISCONNECTED branch of _doReadOrWrite), select /
+        # asyncio as a failing send
+        {"kind": "corpus-hup", "sndbuf": 2304, "rcvbuf": 2304, "sl": 1000, "bs": 512,
+         "A": {"half": False, "rules": [["conn", [["w", 60000], ["lose"]]]]},
+         "B": {"half": False, "rules": [[["recv", 1], [["abort"]]]]},
+         "expect": {"A": ["L"], "B": ["A"], "AB": "prefix", "BA": "exact"}},
+        # half-close answered by a non-half-closeable protocol: EOF is a full close for it
+        {"kind": "corpus-halfclose-plain-peer", "sndbuf": 0, "rcvbuf": 0, "sl": 0, "bs": 0,
+         "A": {"half": True, "rules": [["conn", [["w", 3000], ["losew"]]], ["rlost", [["lose"]]]]},
+         "B": {"half": False, "rules": []}, "expect": E},
+        # both sides write 30 kB at once through tiny buffers, each closes when it has everything
+        {"kind": "corpus-both", "sndbuf": 2304, "rcvbuf": 2304, "sl": 3000, "bs": 1500,
+         "A": {"half": False, "rules": [["conn", [["w", 30000]]], [["recv", 30000], [["lose"]]]]},
+         "B": {"half": True, "rules": [["conn", [["ws", [10000, 0, 20000]]]], [["recv", 30000], [["lose"]]],
+                                       ["rlost", [["lose"]]]]}, "expect": E},
+    ]
+    base += [
+        # abortConnection, then a write re-registers the writer of a socket the peer has already reset: poll / epoll
+        # report the hang-up (connectionLost) before abortConnection's delayed call runs, which must then do nothing
+        {"kind": "corpus-abort-then-hup", "sndbuf": 0, "rcvbuf": 0, "sl": 0, "bs": 0,
+         "A": {"half": False, "rules": [["conn", [["pause"]]], [["at", 25], [["abort"], ["w", 10]]]]},
+         "B": {"half": False, "rules": [["conn", [["abort"]]]]},
+         "expect": {"A": ["L", "A"], "B": ["A"], "AB": "prefix", "BA": "exact"}},
+        # the same on the accepted side (tcp.Server has no guard of its own in front of Connection.connectionLost)
+        {"kind": "corpus-abort-then-hup-server", "sndbuf": 0, "rcvbuf": 0, "sl": 0, "bs": 0,
+         "A": {"half": False, "rules": [[["at", 10], [["abort"]]]]},
+         "B": {"half": False, "rules": [["conn", [["pause"]]], [["at", 40], [["abort"], ["w", 10]]]]},
+         "expect": {"A": ["A"], "B": ["L", "A"], "AB": "exact", "BA": "prefix"}},
+    ]
+    base += [
+        # loseWriteConnection again after the half-close completed (used to re-register the writer: send on a socket
+        # shut down for writing -> EPIPE -> ConnectionLost, the reply is never read), and on the dead transport
+        {"kind": "corpus-losew-twice", "sndbuf": 0, "rcvbuf": 0, "sl": 0, "bs": 0,
+         "A": {"half": True, "rules": [["conn", [["w", 100], ["losew"]]], ["wlost", [["losew"]]],
+                                       ["rlost", [["lose"]]], ["lost", [["losew"]]]]},
+         "B": {"half": True, "rules": [["rlost", [["later", 20, [["w", 50], ["lose"]]]]]]}, "expect": E},
+        {"kind": "corpus-losew-after-lost", "sndbuf": 0, "rcvbuf": 0, "sl": 0, "bs": 0,
+         "A": {"half": False, "rules": [["lost", [["losew"]]]]},
+         "B": {"half": True, "rules": [["conn", [["w", 100], ["lose"]]], ["lost", [["losew"], ["w", 1]]]]},
          "expect": E},
     ]
     out = []
@@ -911,8 +987,7 @@ if __name__ != "__main__":
                  "readConnectionLost (dispatch boundaries)"],
         assumptions=["send accepts a prefix of what is offered; recv returns a non-empty prefix of what is queued, "
                      "b'' only after the peer's FIN with nothing queued, an error only after a reset",
-                     "the reactor dispatches doRead / doWrite only on descriptors registered for it",
-                     "no loseWriteConnection after connectionLost (application hypothesis)"],
+                     "the reactor dispatches doRead / doWrite only on descriptors registered for it"],
     )
 
 
